@@ -453,10 +453,174 @@ pub fn generate(family: &str, size: usize, seed: u64) -> Vec<String> {
         "fq_fault" => faulty("fq", &mut rng, size, &mut out),
         "fa_sweep" => fault_sweep("fa", &mut rng, size, &mut out),
         "fq_sweep" => fault_sweep("fq", &mut rng, size, &mut out),
+        "w_fa" => writer_cases("fa", &mut rng, if size >= 100000 { 8 } else { 6 }, size, &mut out),
+        "w_fq" => writer_cases("fq", &mut rng, 0, size, &mut out),
         _ => {
             eprintln!("unknown family {}", family);
             std::process::exit(2);
         }
     }
     out
+}
+
+// ---------------------------------------------------------------- writer cases
+
+fn harg(b: &[u8]) -> String {
+    hex_or_dash(b)
+}
+
+fn opt_arg(b: &Option<Vec<u8>>) -> String {
+    match b {
+        None => "~".to_string(),
+        Some(x) => harg(x),
+    }
+}
+
+fn wline(f: &str, w: usize, a: [String; 4]) -> String {
+    format!("W {} {} {} {} {} {}", f, w, a[0], a[1], a[2], a[3])
+}
+
+fn t() -> String {
+    "~".to_string()
+}
+
+/// all ways to cut `s` into consecutive non-empty chunks
+fn compositions(s: &[u8]) -> Vec<Vec<Vec<u8>>> {
+    if s.is_empty() {
+        return vec![vec![]];
+    }
+    let n = s.len();
+    let mut out = vec![];
+    for mask in 0..(1u32 << (n - 1)) {
+        let mut parts = vec![];
+        let mut cur = vec![s[0]];
+        for i in 1..n {
+            if mask & (1 << (i - 1)) != 0 {
+                parts.push(cur);
+                cur = vec![];
+            }
+            cur.push(s[i]);
+        }
+        parts.push(cur);
+        out.push(parts);
+    }
+    out
+}
+
+fn segs_arg(parts: &[Vec<u8>]) -> String {
+    if parts.is_empty() {
+        return "~".to_string();
+    }
+    parts.iter().map(|p| hex(p)).collect::<Vec<_>>().join("|")
+}
+
+pub fn writer_cases(fmt: &str, rng: &mut Rng, maxlen: usize, nrand: usize, out: &mut Vec<String>) {
+    if fmt == "fa" {
+        // exhaustive: every sequence over {A,C} up to maxlen x widths 1..5 x every chunking (+ empty chunks)
+        let h = b"id d".to_vec();
+        for s in all_strings(b"AC", maxlen) {
+            out.push(wline("fa_to", 0, [harg(&h), harg(&s), t(), t()]));
+            for w in 1..=5usize {
+                out.push(wline("fa_wrap", w, [harg(b"id"), harg(b"d"), harg(&s), t()]));
+                out.push(wline("fa_owned_wrap", w, [harg(&h), harg(&s), t(), t()]));
+                for parts in compositions(&s) {
+                    out.push(wline("fa_wrapiter", w, [harg(&h), segs_arg(&parts), t(), t()]));
+                    if !parts.is_empty() && parts.len() <= 3 {
+                        // with empty chunks at every position
+                        for k in 0..=parts.len() {
+                            let mut p2 = parts.clone();
+                            p2.insert(k, vec![]);
+                            out.push(wline("fa_wrapiter", w, [harg(&h), segs_arg(&p2), t(), t()]));
+                        }
+                    }
+                }
+            }
+            for parts in compositions(&s) {
+                out.push(wline("fa_seqiter", 0, [harg(&h), segs_arg(&parts), t(), t()]));
+            }
+        }
+        out.push(wline("fa_wrap", 0, [harg(b"id"), t(), harg(b"ACGT"), t()]));
+        out.push(wline("fa_wrapiter", 0, [harg(b"id"), harg(b"ACGT"), t(), t()]));
+        for _ in 0..nrand {
+            let in_domain = rng.chance(4, 5);
+            let h = rand_head(rng);
+            let seq_alpha: &[u8] = if in_domain { b"ACGTN @+;x" } else { b"ACG>\r\n T" };
+            let slen = *rng.pick(&[0usize, 1, 2, 3, 5, 9, 20, 61]);
+            let s = rand_bytes(rng, slen, seq_alpha);
+            let w = rng.range(1, 12);
+            let (id, desc) = match h.iter().position(|b| *b == b' ') {
+                Some(p) if rng.chance(2, 3) => (h[..p].to_vec(), Some(h[p + 1..].to_vec())),
+                _ => (h.clone(), None),
+            };
+            match rng.below(9) {
+                0 => out.push(wline("fa_to", 0, [harg(&h), harg(&s), t(), t()])),
+                1 => out.push(wline("fa_parts", 0, [harg(&id), opt_arg(&desc), harg(&s), t()])),
+                2 => out.push(wline("fa_wrap", w, [harg(&id), opt_arg(&desc), harg(&s), t()])),
+                3 => out.push(wline("fa_wrapseq", w, [harg(&id), opt_arg(&desc), harg(&s), t()])),
+                4 => out.push(wline("fa_owned", 0, [harg(&h), harg(&s), t(), t()])),
+                5 => out.push(wline("fa_owned_wrap", w, [harg(&h), harg(&s), t(), t()])),
+                6 | 7 => {
+                    // random chunking with empty chunks
+                    let mut parts: Vec<Vec<u8>> = vec![];
+                    let mut i = 0;
+                    while i < s.len() {
+                        if rng.chance(1, 6) {
+                            parts.push(vec![]);
+                        }
+                        let l = rng.range(1, (s.len() - i).min(9));
+                        parts.push(s[i..i + l].to_vec());
+                        i += l;
+                    }
+                    if rng.chance(1, 6) {
+                        parts.push(vec![]);
+                    }
+                    let f = if rng.chance(1, 2) { "fa_wrapiter" } else { "fa_seqiter" };
+                    out.push(wline(f, w, [harg(&h), segs_arg(&parts), t(), t()]));
+                }
+                _ => {
+                    let n = rng.range(1, 5);
+                    let recs: Vec<String> = (0..n)
+                        .map(|_| {
+                            let h = rand_head(rng);
+                            let l = *rng.pick(&[0usize, 1, 3, 8, 20]);
+                            let s = rand_bytes(rng, l, b"ACGTN @+;x");
+                            format!("{}:{}", hex(&h), hex(&s))
+                        })
+                        .collect();
+                    out.push(wline("fa_many", 0, [recs.join("|"), t(), t(), t()]));
+                }
+            }
+        }
+    } else {
+        for _ in 0..nrand {
+            let in_domain = rng.chance(4, 5);
+            let h = rand_head(rng);
+            let slen = *rng.pick(&[0usize, 1, 2, 3, 5, 9, 20, 61]);
+            let s = rand_bytes(rng, slen, if in_domain { b"ACGTN" } else { b"ACG\r\nT" });
+            let qlen = if in_domain || rng.chance(1, 2) { slen } else { rng.below(8) };
+            let q = rand_bytes(rng, qlen, if in_domain { QUAL_CHARS } else { b"I#\r\n@+" });
+            let (id, desc) = match h.iter().position(|b| *b == b' ') {
+                Some(p) if rng.chance(2, 3) => (h[..p].to_vec(), Some(h[p + 1..].to_vec())),
+                _ => (h.clone(), None),
+            };
+            match rng.below(4) {
+                0 => out.push(wline("fq_to", 0, [harg(&h), harg(&s), harg(&q), t()])),
+                1 => out.push(wline("fq_parts", 0, [harg(&id), opt_arg(&desc), harg(&s), harg(&q)])),
+                2 => out.push(wline("fq_owned", 0, [harg(&h), harg(&s), harg(&q), t()])),
+                _ => {
+                    let n = rng.range(1, 5);
+                    let recs: Vec<String> = (0..n)
+                        .map(|_| {
+                            let h = rand_head(rng);
+                            let l = *rng.pick(&[0usize, 1, 3, 8, 20]);
+                            let s = rand_bytes(rng, l, b"ACGTN");
+                            let q = rand_bytes(rng, l, QUAL_CHARS);
+                            format!("{}:{}:{}", hex(&h), hex(&s), hex(&q))
+                        })
+                        .collect();
+                    out.push(wline("fq_many", 0, [recs.join("|"), t(), t(), t()]));
+                }
+            }
+        }
+    }
 }
